@@ -13,7 +13,9 @@ from mcx.core.env import gv_reset, gv_snapshot
 
 GV = dict(sps=8, R=1e9)
 # ambient grid configurations the call sequences switch between (same argument buffers under each of them)
-GVS = [GV, dict(sps=8, R=2e9), dict(sps=16, R=1e9, wavelength=1310e-9)]
+GVS = [GV, dict(sps=8, R=2e9), dict(sps=16, R=1e9, wavelength=1310e-9),
+       dict(sps=8, R=1e9, N=64)]     # a slot count in force: gv.t / gv.w exist (only C14 itself runs this one, see NG_HISTORY)
+NG_HISTORY = 3                       # the call-history parts of the other properties switch between the first three grids
 _CACHE = {}
 
 
@@ -127,6 +129,14 @@ def harden_inputs(I, gv, bits, wave, k):
     I['long'] = chirp.copy()
     I['long_es'] = electrical_signal(chirp.copy())
     I['long_esn'] = electrical_signal(chirp.copy(), 0.01 * np.cos(0.313 * m))
+    # record lengths that are prime / not smooth (97, 127 samples), one polarisation with noise
+    q = np.arange(97)
+    I['o97'] = optical_signal(0.03 * (1 + 0.5 * np.sin(0.3 * q)) * np.exp(0.4j * np.cos(0.11 * q)), 1e-3 * np.exp(1j * 0.7 * q))
+    I['e127'] = electrical_signal(0.5 + np.sin(0.21 * np.arange(127)), 0.02 * np.cos(1.9 * np.arange(127)))
+    # scale and offset: all-zero field, a field of 1e-9 of the usual amplitude, a large offset with a small variation
+    I['ozero'] = optical_signal(np.zeros(n, dtype=complex), np.zeros(n, dtype=complex))
+    I['otiny'] = optical_signal(1e-9 * (0.1 + wave) * np.exp(0.2j * np.cos(0.05 * k)), 1e-12 * np.exp(1j * 1.7 * k))
+    I['ebig'] = electrical_signal(1e6 + 1e-3 * wave, 1e-4 * np.cos(1.3 * k))
     # a frequency response
     I['H'] = np.exp(-1j * 0.5 * np.linspace(-3, 3, 257) ** 2) / (1 + 0.2j * np.linspace(-3, 3, 257))
 
@@ -246,7 +256,7 @@ def menu():
 
 
 # entries of the hardening pass that stay out of the cross-grid / depth-3 products (long records, chains, slow filters)
-HARDEN_HEAVY = {'long:ADC.nd', 'long:ADC.es', 'long:ADC.esn', 'long:LPF', 'long:shortest_int', 'chain:EDFA-FIBER-PD',
+HARDEN_HEAVY = {'len:BPF.97', 'len:LPF.127', 'scale:zero.rnd', 'scale:tiny', 'scale:tiny.rnd', 'scale:offset', 'long:ADC.nd', 'long:ADC.es', 'long:ADC.esn', 'long:LPF', 'long:shortest_int', 'chain:EDFA-FIBER-PD',
                 'chain:DAC-MZM-DM-PD-LPF-ADC', 'chain:LASER-PM-EDFA-BPF-PD', 'chain:PPM', 'dt:FBG.int', 'opt:FBG.single',
                 'dt:PD.int', 'dt:PD.real', 'dt:LPF.int', 'dt:LPF.intnd', 'dt:BPF.int', 'dt:BPF.real', 'opt:GET_EYE.nslots', 'lay:PD.n1',
                 'opt:LPF.retH.es', 'opt:PD.shot', 'lay:BPF.empty'}
@@ -302,7 +312,7 @@ def harden_menu():
         # --- containers: every codec / counter with str, list, tuple, ndarray and binary_sequence arguments
         ('cont:PPM_ENC.bseq', lambda I: ppm.PPM_ENCODER(I['bseq'], 4), True),
         ('cont:PPM_ENC.str', lambda I: (ppm.PPM_ENCODER(I['bits_str'], 4), ppm.PPM_ENCODER(I['bits_str2'], 8)), True),
-        ('cont:PPM_ENC.list', lambda I: (ppm.PPM_ENCODER(I['bits_list'], 2), ppm.PPM_ENCODER(I['bits_tuple'], 16)), True),
+        ('cont:PPM_ENC.list', lambda I: (ppm.PPM_ENCODER(I['bits_list'], 8), ppm.PPM_ENCODER(I['bits_tuple'], 16), ppm.PPM_ENCODER(I['bits_list'], 2)), True),   # 32 bits: ragged for M = 8
         ('cont:PPM_DEC.bseq', lambda I: ppm.PPM_DECODER(I['ppm_sym'], 4), True),
         ('cont:PPM_DEC.nd', lambda I: (ppm.PPM_DECODER(I['ppm_sym_nd'], 4), ppm.PPM_DECODER(I['ppm_sym_str'], 4)), True),
         ('cont:HDD.shared', lambda I: ppm.HDD(I['ppm_sym'], 4), False),
@@ -350,6 +360,31 @@ def harden_menu():
         ('opt:FBG.single', lambda I: d.FBG(I['mod'], fc=gv.f0, vdneff=1e-4, kL=1.0, filtfilt=False, print_params=False), True),
         ('opt:ppm.BER.est.soft', lambda I: ppm.BER_analizer('estimator', eye_obj=I['eye'], M=8, decision='soft'), True),
         ('opt:utils.tBER.ppm', lambda I: utils.theory_BER(np.array([-32.0, -27.0]), 'ppm', M=4, decision='soft', amplify=True, G=20.0, NF=5.0, BW_opt=20e9), True),
+        # --- record lengths: prime / non-smooth
+        ('len:DM.97', lambda I: (d.DM(I['o97'], 150.0), d.FIBER(I['o97'], 5.0, alpha=0.2, beta_2=-20.0, gamma=2.0)), True),
+        ('len:EDFA.97', lambda I: (d.EDFA(I['o97'], 12.0, 4.5), d.PM(I['o97'], 0.7), d.MZM(I['o97'], 0.3, Vpi=2.0)), False),
+        ('len:BPF.97', lambda I: (d.BPF(I['o97'], 3e9), d.PD(I['o97'], 3e9, include_noise='ase-only')), True),
+        ('len:LPF.127', lambda I: (d.LPF(I['e127'], 2e9), d.ADC(I['e127'], n=5), d.SAMPLER(I['e127'][:120], 5), utils.shortest_int(I['e127'].signal, 90)), True),
+        # --- scale, offset and boundary values of the parameters
+        ('scale:zero', lambda I: (d.DM(I['ozero'], 100.0), d.FIBER(I['ozero'], 5.0, alpha=0.2, beta_2=-20.0, gamma=2.0), d.PM(I['ozero'], 1.0),
+                                  d.MZM(I['ozero'], I['v'], Vpi=2.0)), True),
+        ('scale:zero.rnd', lambda I: (d.EDFA(I['ozero'], 20.0, 5.0), d.PD(I['ozero'], 3e9)), False),
+        ('scale:tiny', lambda I: (d.DM(I['otiny'], 100.0), d.FIBER(I['otiny'], 5.0, alpha=0.2, beta_2=-20.0, gamma=2.0), d.PM(I['otiny'], I['vnd']),
+                                  d.BPF(I['otiny'], 3e9)), True),
+        ('scale:tiny.rnd', lambda I: (d.EDFA(I['otiny'], 30.0, 5.0), d.PD(I['otiny'], 3e9)), False),
+        ('scale:offset', lambda I: (d.ADC(I['ebig'], n=8), d.LPF(I['ebig'], 2e9), d.SAMPLER(I['ebig'], 2), I['ebig'] > 1e6, I['ebig'].power()), True),
+        ('bnd:identity', lambda I: (d.FIBER(I['mod'], 0.0), d.DM(I['mod'], 0.0), d.PM(I['mod'], 0.0), d.FIBER(I['opt2'], 1e-9, alpha=0.0),
+                                    d.MZM(I['cw'], 0.0, bias=0.0, loss_dB=0.0, ER_dB=np.inf), I['v'] * 1, I['opt2'] + 0, I['mod'] - 0.0), True),
+        ('bnd:identity.rnd', lambda I: (d.EDFA(I['mod'], 0.0, 0.0), d.EDFA(I['opt2'], 0.0, 3.0)), False),
+        ('bnd:params', lambda I: (d.SAMPLER(I['v'], 0), d.SAMPLER(I['v'], gv.sps - 1), d.ADC(I['v'], n=1), d.ADC(I['rx'], n=16, otype='n'),
+                                  d.DAC(I['bseq'], Vout=0.0), d.DAC(I['bits'][:1]), ppm.PPM_ENCODER(I['bits'][:2], 4), d.PRBS(7, 1, seed=1),
+                                  utils.shortest_int(I['vnd'], 99), utils.shortest_int(I['vnd'], 1)), True),
+        # --- the same object passed twice; the arrays of the global grid passed as arguments
+        ('same:twice', lambda I: (ook.BER_analizer('counter', Tx=I['bseq'], Rx=I['bseq']), ppm.BER_analizer('counter', Tx=I['bits'], Rx=I['bits']),
+                                  I['opt2'] + I['opt2'], I['v'] * I['v'], I['v'] - I['v'], I['bseq'] + I['bseq'], I['bseq'] == I['bseq'],
+                                  d.PM(I['cw'], I['cw'].signal.real), d.MZM(I['mod'], I['mod'].signal.imag, Vpi=2.0)), True),
+        ('gvt:LASER', lambda I: (d.LASER(gv.t if gv.t is not None else I['t'], 0.0, lw=0.0), utils.rcos(gv.t if gv.t is not None else I['t'], 0.5, 1e-9),
+                                 utils.nearest(gv.w if gv.w is not None else I['t'], 0.0)), False),
         # --- the result of one call fed to the next
         ('chain:EDFA-FIBER-PD', lambda I: pipe(I['mod'], lambda x: d.EDFA(x, 15.0, 5.0), lambda x: d.FIBER(x, 10.0, alpha=0.2, beta_2=-20.0),
                                                lambda x: d.DM(x, 200.0), lambda x: d.PD(x, 3e9)), False),
@@ -496,13 +531,14 @@ def fresh_solo_main(argv):
     print('TABLE ' + json.dumps([[i, g, out] for i, g, out in res_]))
 
 
-def fresh_table(n, seeds):
+def fresh_table(n, seeds, G=None):
     """digests of every menu entry (n = count, or an explicit list of menu indices) under every grid, each computed in a
     process whose first library call it is (children forked one-per-request from a pristine template process)"""
     import json, os, subprocess, sys
     idx = list(range(n)) if isinstance(n, int) else list(n)
+    G = len(GVS) if G is None else G
     env = dict(os.environ, OMP_NUM_THREADS='1', OPENBLAS_NUM_THREADS='1', MPLBACKEND='Agg', PYTHONHASHSEED='0')
-    reqs = [[i, g, list(seeds)] for i in idx for g in range(len(GVS))]
+    reqs = [[i, g, list(seeds)] for i in idx for g in range(G)]
     p = subprocess.run([sys.executable, '-m', 'mcx.props.c14b', json.dumps(reqs)], capture_output=True, text=True, env=env,
                        cwd=os.path.dirname(os.path.dirname(os.path.dirname(os.path.abspath(__file__)))), timeout=3600)
     tab = {}
@@ -512,7 +548,7 @@ def fresh_table(n, seeds):
                 for k, v in out.items():
                     tab[(i, g, int(k))] = v
     for i in idx:
-        for g in range(len(GVS)):
+        for g in range(G):
             for s_ in seeds:
                 tab.setdefault((i, g, s_), 'FRESH-PROCESS-FAILED:' + p.stderr[-400:])
     return tab
@@ -533,9 +569,14 @@ def check_after(name, out, viol, where, g=0):
         setup()
         return
     ins = C['ins']
+    from opticomlib.typing import gv
+    grid = [a for a in vars(gv).values() if isinstance(a, np.ndarray)]
     for b in arrays_of(out):
         if any(np.shares_memory(a, b) for a in ins):
             viol.append((f'alias:output-input:{name}', f'{where}: output of {name} shares memory with an input buffer'))
+            break
+        if any(np.shares_memory(a, b) for a in grid):
+            viol.append((f'alias:output-gv:{name}', f'{where}: output of {name} shares memory with an array of the global grid (gv.t / gv.w)'))
             break
 
 
@@ -586,7 +627,8 @@ def single_case(case):
     viol = []
     obs = []
     t0 = time.time()
-    for g in range(len(GVS)):
+    grids = sorted({g for (j, g, s_) in table if j == i})
+    for g in grids:
         og = []
         for s in seeds:
             a = call(i, s, g)
@@ -602,9 +644,17 @@ def single_case(case):
             viol.append((f'seed-dependence:{name}', f'deterministic block {name} gives different results for different numpy seeds'))
         obs.append(tuple(og))
     gv_reset(**GV)
-    return res(viol=viol, obs=tuple(obs), nontrivial=(name,), stats={'calls': 2 * len(seeds) * len(GVS)},
-               payload={'name': name, 'cost_ms': round((time.time() - t0) * 1000 / (2 * len(seeds) * len(GVS)), 2),
+    return res(viol=viol, obs=tuple(obs), nontrivial=(name,), stats={'calls': 2 * len(seeds) * len(grids)},
+               payload={'name': name, 'cost_ms': round((time.time() - t0) * 1000 / (2 * len(seeds) * len(grids)), 2),
                         'seed_sensitive': any(len(set(o)) > 1 for o in obs), 'gv_sensitive': len({o[0] for o in obs}) > 1})
+
+
+# the 36 entries of the depth-3 product of the quick tier (the cheapest ones of the original menu, in order of cost; a fixed list,
+# so that the enumerated space does not depend on the timing of the run)
+D3_QUICK = ['utils.p_ase', 'utils.dec2bin', 'utils.si', 'ppm.BER.cnt', 'utils.avgV', 'utils.nvar', 'SAMPLER', 'ook.BER.cnt', 'utils.str2array.c',
+            'bseq.add', 'SDD', 'utils.rcos', 'SDD.nd', 'PRBS.resume', 'PPM_ENC', 'utils.shortest_int', 'PM.wave', 'ADC.v', 'ppm.BER.est',
+            'ppm.TH', 'utils.str2array', 'utils.db', 'HDD.bseq', 'esig.w', 'esig.ops', 'PM.scalar', 'PPM_DEC', 'ook.TH', 'ADC.n', 'FIBER.b3',
+            'DAC.rz', 'LASER', 'osig.w', 'PRBS', 'ppm.DSP.soft', 'FIBER.lin']
 
 
 def run_part_b(ctx):
@@ -615,10 +665,10 @@ def run_part_b(ctx):
     cheap = [i for i in range(n) if not M[i][3]]
     seeds = sorted({ctx.seed, 0, 12345})
     s0 = ctx.seed
-    ctx.rule(f'C14-B: menu of {n} public calls on shared write-protected inputs under {G} ambient grids; oracle for every call = the '
+    ctx.rule(f'C14-B: menu of {n} public calls on shared write-protected inputs under {G} ambient grids (one with a slot count N in force); oracle for every call = the '
              f'same call made FIRST in a fresh interpreter (one subprocess per entry and grid); executed: every entry twice per seed '
              f'and grid; every ordered pair of entries on the base grid (the seed of the run; cheap second entries under 2 more seeds); every entry under every ordered grid switch '
-             f'g1,g2,g1; every ordered pair of cheap entries across a grid switch; every ordered triple of the 36 cheapest entries (quick) / of all cheap entries plus every quadruple of the 16 '
+             f'g1,g2,g1; every ordered pair of cheap entries across a grid switch; every ordered triple of 36 cheap entries (quick, list D3_QUICK) / of the cheap original + dtype + length-1 + layout entries plus every quadruple of 16 '
              f'cheapest (thorough); after every call: gv snapshot and argument bytes unchanged, no output shares '
              f'memory with an argument, earlier outputs intact; examined outputs are overwritten to expose shared/memoised buffers')
     table = fresh_table(n, seeds)
@@ -639,15 +689,17 @@ def run_part_b(ctx):
     sw = [((), s0, ((a, g1), (a, g2), (a, g1)), table) for a in range(n) for g1 in range(G) for g2 in range(G) if g1 != g2]
     ctx.pmap('purity.gvswitch', seq_case, sw, horizon=600, chunk=2, recheck=0)
     # cross-entry across a grid switch (cheap entries): a@g1 then every b@g2
-    cx = [(((a, g1),), s0, tuple((b, g2) for b in cheap), table) for a in cheap for (g1, g2) in ((0, 1), (1, 0), (0, 2), (2, 0))]
+    cx = [(((a, g1),), s0, tuple((b, g2) for b in cheap), table) for a in cheap for (g1, g2) in ((0, 1), (1, 0), (0, 2), (2, 0), (3, 1))]
     ctx.pmap('purity.gvcross', seq_case, cx, horizon=600, chunk=2, recheck=0)
     # depth 3 over cheap entries: prefix (a,b), tail = cheap
-    d3 = cheap if not ctx.quick else sorted(cheap, key=lambda i: costs.get(M[i][0], 1e9))[:36]
+    idx = {M[i][0]: i for i in range(n)}
+    # thorough: the cheap entries of the original menu and the dtype / length-1 / layout classes of the hardening pass
+    d3 = [i for i in cheap if ':' not in M[i][0] or M[i][0].split(':')[0] in ('dt', 'len1', 'lay')] if not ctx.quick else [idx[nm] for nm in D3_QUICK]
     cases = [(((a, 0), (b, 0)), s0, tuple((c, 0) for c in d3), table) for a in d3 for b in d3]
     nseq = len(cases) * len(d3)
     ctx.extra['depth3_entries'] = [M[i][0] for i in d3]
     if not ctx.quick:
-        c16 = sorted(cheap, key=lambda i: costs.get(M[i][0], 1e9))[:16]
+        c16 = [idx[nm] for nm in D3_QUICK[:16]]
         cases += [(((a, 0), (b, 0), (c, 0)), s0, tuple((d, 0) for d in c16), table) for a in c16 for b in c16 for c in c16]
         nseq += 16 ** 4
     ctx.pmap('purity.depth3+', seq_case, cases, horizon=600, chunk=4, recheck=0)
@@ -690,10 +742,10 @@ def run_history_part(ctx, prefixes):
     sel = [i for i in range(len(M)) if any(M[i][0].startswith(p) for p in prefixes)]
     if not sel:
         return
-    G = len(GVS)
+    G = NG_HISTORY
     seeds = sorted({ctx.seed, 0})
     s0 = ctx.seed
-    table = fresh_table(sel, seeds)
+    table = fresh_table(sel, seeds, G)
     failed = [k for k, v in table.items() if str(v).startswith('FRESH-PROCESS-FAILED')]
     if failed:
         raise RuntimeError(f'fresh-process oracle failed for {failed[:3]}: {table[failed[0]]}')
@@ -706,7 +758,7 @@ def run_history_part(ctx, prefixes):
     ctx.pmap('history.gvswitch', seq_case, sw, horizon=600, chunk=1, recheck=0, quiet=True)
     pairs = [(((a, g1),), s0, tuple((b, g2) for b in sel), table) for a in sel for (g1, g2) in ((0, 0), (0, 1), (1, 0), (2, 0))]
     ctx.pmap('history.pairs', seq_case, pairs, horizon=900, chunk=1, recheck=0, quiet=True)
-    ctx.extra['call_history_part'] = {'entries': [M[i][0] for i in sel], 'grids': GVS, 'fresh_processes': len(sel) * G,
+    ctx.extra['call_history_part'] = {'entries': [M[i][0] for i in sel], 'grids': GVS[:G], 'fresh_processes': len(sel) * G,
                                       'sequences': len(sw) + len(pairs) * len(sel)}
 
 
